@@ -20,6 +20,7 @@ LEVEL_TEXT["C06"] = (
     "ORACLE (the C++ side of the same statement, incl. what no model sees: aliasing, statics, in-place buffers): the implementation against itself, "
     "memcmp of the doubles, whole-stream call vs EVERY composition of short streams, heavy-tailed random framings of streams to 1e5 samples, and "
     "2..4 separately constructed instances used interleaved."
+    " REGENERATED TIE (Props/C06Gen): the Delay<T> constructors and process, the HilbertFilter constructors and process are translated from the C++ on every run (Gen/CtorDelay, Gen/StepsDelay, Gen/StepsFir, Gen/StepsSlice) and proved equal to the local models (delayRProcess_eq, hilbertProcess_eq, *Ctor*_buf); the split laws are restated for the generated code (gen_delay_split, gen_hilbert_split_from_ctor). "
 )
 
 PROPS["C06"] = {
@@ -53,7 +54,7 @@ PROPS["C06"] = {
     "technique": "Lean 4 structural proofs (generic framing theorem by induction on the partition + per-processor split laws over arbitrary sample types) over "
                  "the executable models + frame-by-frame correspondence of the models with the real objects + exhaustive/random bit-exact self-comparison "
                  "of the implementation (whole stream vs framed, interleaved instances)",
-    "level_note": "the theorems are about the hand-written models (tied by correspondence, not by translation); Delay, Tuner and HilbertFilter::process are "
+    "level_note": "the theorems are about the hand-written models; Delay, Tuner, FirFilter, FftFilter, HilbertFilter, MedianFilter, the adaptive filters, the resamplers and the dynamics processors are proved equal to REGENERATED constructors / process bodies in their own properties' Gen bridges (C06Gen for Delay and HilbertFilter), the remaining processors are tied by correspondence only; Delay, Tuner and HilbertFilter::process are "
                   "LOCAL models in Model/Framing.lean (the HilbertFilter constructor's firtype check is not modelled: the model is built from impz()); "
                   "FftFilter's transform pair is a parameter (the split law holds for any two functions; the driver uses the C01 model of the library's plans, Fft.fftC / Fft.ifftWith, at Float); "
                   "instance independence is immediate in a pure model -- on the C++ side it is established only by the interleaving runs of the oracle; "
